@@ -257,8 +257,9 @@ class Program:
         """method -> the public methods of the class on whose behalf it runs: itself when public, otherwise the public methods that reach
         it through self-calls (an operation moved into a private helper still belongs to the operation that calls the helper)."""
         ci = self.cls(clsname)
+        # (a method handed on as a value -- `cond.wait_for(self._ready)`, `partial(self._match, x)` -- is used by the method that hands it on)
         calls = {
-            m: {n.func.attr for n in ast.walk(fi.node) if isinstance(n, ast.Call) and isinstance(n.func, ast.Attribute) and dotted(n.func.value) in ("self", clsname) and n.func.attr in ci.methods}
+            m: {n.attr for n in ast.walk(fi.node) if isinstance(n, ast.Attribute) and isinstance(n.ctx, ast.Load) and dotted(n.value) in ("self", clsname) and n.attr in ci.methods}
             for m, fi in ci.methods.items()
         }
         out = {}
